@@ -27,6 +27,30 @@ from sa.report import AnalysisError
 from sa.types import walk_own
 
 
+def core_properties_default_rule(ctx, prog, rid):
+    """A package without core properties gains a related default part on first access (shared by C16 R16.4 and C18 R18.5)."""
+    pkg = prog.cls("pptx.package", "Package")
+    cp = pkg.methods.get("core_properties")
+    good = False
+    for n in ast.walk(cp.node) if cp else []:
+        if isinstance(n, ast.Try):
+            body_ret = any(isinstance(x, ast.Return) and isinstance(x.value, ast.Call) and dotted(x.value.func) == "self.part_related_by"
+                           and dotted(x.value.args[0]) == "RT.CORE_PROPERTIES" for x in n.body)
+            for h in n.handlers:
+                if dotted(h.type) == "KeyError":
+                    mk = [x for x in ast.walk(h) if isinstance(x, ast.Call) and dotted(x.func) == "CorePropertiesPart.default"]
+                    rl = [x for x in ast.walk(h) if isinstance(x, ast.Call) and dotted(x.func) == "self.relate_to"
+                          and any(dotted(a) == "RT.CORE_PROPERTIES" for a in x.args)]
+                    rt = [x for x in h.body if isinstance(x, ast.Return)]
+                    good = body_ret and bool(mk) and bool(rl) and bool(rt)
+    if good:
+        ctx.ok(rid, "Package.core_properties", sample={"absent": "CorePropertiesPart.default(self) related with RT.CORE_PROPERTIES and returned"})
+    else:
+        ctx.violation(rid, "Package.core_properties", "missing core properties are not replaced by a related default part",
+                      file=pkg.file, line=cp.line if cp else pkg.line)
+
+
+
 def run(ctx):
     from checks.c10 import load
 
@@ -335,25 +359,7 @@ def run(ctx):
 
     # -- R16.4 -------------------------------------------------------------------------------------------
     ctx.rule("R16.4", "a package without core properties gains a default part on first access")
-    pkg = prog.cls("pptx.package", "Package")
-    cp = pkg.methods.get("core_properties")
-    good = False
-    for n in ast.walk(cp.node) if cp else []:
-        if isinstance(n, ast.Try):
-            body_ret = any(isinstance(x, ast.Return) and isinstance(x.value, ast.Call) and dotted(x.value.func) == "self.part_related_by"
-                           and dotted(x.value.args[0]) == "RT.CORE_PROPERTIES" for x in n.body)
-            for h in n.handlers:
-                if dotted(h.type) == "KeyError":
-                    mk = [x for x in ast.walk(h) if isinstance(x, ast.Call) and dotted(x.func) == "CorePropertiesPart.default"]
-                    rl = [x for x in ast.walk(h) if isinstance(x, ast.Call) and dotted(x.func) == "self.relate_to"
-                          and any(dotted(a) == "RT.CORE_PROPERTIES" for a in x.args)]
-                    rt = [x for x in h.body if isinstance(x, ast.Return)]
-                    good = body_ret and bool(mk) and bool(rl) and bool(rt)
-    if good:
-        ctx.ok("R16.4", "Package.core_properties", sample={"absent": "CorePropertiesPart.default(self) related with RT.CORE_PROPERTIES and returned"})
-    else:
-        ctx.violation("R16.4", "Package.core_properties", "missing core properties are not replaced by a related default part",
-                      file=pkg.file, line=cp.line if cp else pkg.line)
+    core_properties_default_rule(ctx, prog, "R16.4")
 
     # -- R16.5 -------------------------------------------------------------------------------------------
     ctx.rule("R16.5", "slide parts are renamed slide1..n in presentation order")
